@@ -532,9 +532,20 @@ func (r *Rsrc) putSlot(s Slot, c *Rsrc) Rerr {
 type Base struct {
 	Ref bool
 	X   int64
+	Sto bool // the value stored at path X, accessed in place (the contract)
+}
+
+// ContractPath is where the model keeps the contract's pseudo-resource (uuid 0, no event).
+const ContractPath = 100
+
+func InitPState(next int64) *PState {
+	return &PState{Next: next, Store: []VarEnt{{ContractPath, &Rsrc{}}}}
 }
 
 func (b Base) Coq() string {
+	if b.Sto {
+		return fmt.Sprintf("(BSto %d)", b.X)
+	}
 	if b.Ref {
 		return fmt.Sprintf("(BRef %d)", b.X)
 	}
@@ -686,6 +697,12 @@ func (st *State) resolveRv(v Rv) (*Rsrc, Rerr) {
 }
 
 func (st *State) baseRes(b Base) (*Rsrc, Rerr) {
+	if b.Sto {
+		if r := st.Stored(b.X); r != nil {
+			return r, ENone
+		}
+		return nil, EStatic
+	}
 	if !b.Ref {
 		if r := st.Var(b.X); r != nil {
 			return r, ENone
